@@ -25,6 +25,7 @@ func runC11(c *Ctx) {
 	c11Rand(c)
 	c11Max(c)
 	c11WeightArith(c)
+	c11WeightNotAFilter(c)
 	c11WeightedFlag(c, "C11.weighted-flag")
 	// the per-listener answer limit reaches the sampler only if every listener's chain ends at its own max-answer handler
 	c.importRules(runC20, "C20", map[string]string{"samemux": "samemux"})
